@@ -106,6 +106,30 @@ fn gen_data(r: &mut Sm, n: usize, mode: &str) -> Vec<f64> {
             }
             v
         }
+        "special_distinct" => {
+            // special values, every bit pattern at most once (so positions stay identifiable)
+            let mut sp = vec![
+                0.0,
+                -0.0,
+                f64::INFINITY,
+                f64::NEG_INFINITY,
+                f64::NAN,
+                f64::from_bits(0x7ff8_0000_0000_0001),
+                f64::from_bits(0xfff8_0000_0000_0000),
+                f64::MIN_POSITIVE / 4.0,
+                -f64::MIN_POSITIVE / 8.0,
+                f64::MAX,
+                1.0,
+                1.5,
+                3.0,
+            ];
+            for i in (1..sp.len()).rev() {
+                let j = r.below(i as u64 + 1) as usize;
+                sp.swap(i, j);
+            }
+            sp.truncate(n.min(13));
+            sp
+        }
         "repeated" => {
             let k = 1 + r.below(3) as usize;
             (0..n).map(|_| r.below(k as u64) as f64).collect()
@@ -159,7 +183,7 @@ impl Prop for C19 {
         8
     }
 
-    fn gen(seed: u64, run: u64, _tier: Tier) -> Case {
+    fn gen(seed: u64, run: u64, tier: Tier) -> Case {
         let mut r = Sm::new(mix3(seed, str_id("C19"), run));
         if run < 256 {
             // every length 1..=64 for every function, fault-free, distinct data
@@ -176,6 +200,21 @@ impl Prop for C19 {
                 repeat: 12,
             };
         }
+        let _ = tier;
+        if run % 1000 == 700 {
+            // deep uniformity runs: long data, ~8000 pooled draws per position, chi-square over all
+            // positions (sees small periodic biases that no single position reveals)
+            let n = 1500 + r.below(501) as usize;
+            return Case {
+                func: Func::Bootstrap,
+                data: fbs(&gen_data(&mut r, n, "distinct")),
+                mode: "distinct".into(),
+                n_boot: 200,
+                seeding: Seeding::gen(&mut r),
+                script: vec![],
+                repeat: 40,
+            };
+        }
         let func = *r.pick(&[
             Func::Bootstrap,
             Func::Bootstrap,
@@ -190,10 +229,14 @@ impl Prop for C19 {
             6..=8 => r.usize(65, 400),
             _ => r.usize(401, 2000),
         };
-        let mode = *r.pick(&["distinct", "distinct", "repeated", "special"]);
+        let mode = *r.pick(&["distinct", "distinct", "repeated", "special", "special_distinct"]);
+        // a tenth of the runs use power-of-two geometry (block-size boundaries of bulk code paths)
+        let pow2 = r.chance(0.1);
+        let n = if mode == "special_distinct" { 2 + r.below(11) as usize } else if pow2 { 1usize << r.below(11) } else { n };
         let data = gen_data(&mut r, n, mode);
         let n_boot = if r.chance(0.5) { r.usize(40, 200) } else { r.usize(1, 39) };
         // keep a single run bounded: n * n_boot <= 120k draws
+        let n_boot = if pow2 { (1usize << r.below(8)).max(1) } else { n_boot };
         let n_boot = n_boot.min((120_000 / n).max(1));
         let seeding = Seeding::gen(&mut r);
         let mut script = vec![];
@@ -227,7 +270,7 @@ impl Prop for C19 {
             }
         }
         // pooled calls so that every position expects >= ~600 hits (fault-free, distinct data)
-        let repeat = if func == Func::Bootstrap && mode == "distinct" && script.is_empty() && r.chance(0.5) { ((600 + n_boot - 1) / n_boot).min(600) } else { 1 };
+        let repeat = if func == Func::Bootstrap && (mode == "distinct" || mode == "special_distinct") && script.is_empty() && r.chance(0.5) { ((600 + n_boot - 1) / n_boot).min(600) } else { 1 };
         Case { func, data: fbs(&data), mode: mode.into(), n_boot, seeding, script, repeat }
     }
 
@@ -266,8 +309,11 @@ impl Prop for C19 {
 
         match case.func {
             Func::Bootstrap => {
-                let distinct = case.mode == "distinct";
+                let distinct = orig_bits.len() == n;
                 let mut counts = vec![0u64; n];
+                // joint (output position, drawn index) counts for small data
+                let joint_on = distinct && n <= 12;
+                let mut joint = vec![0u64; if joint_on { n * n } else { 0 }];
                 let pos_of: BTreeMap<u64, usize> = if distinct {
                     data.iter().enumerate().map(|(i, x)| (x.to_bits(), i)).collect()
                 } else {
@@ -304,7 +350,11 @@ impl Prop for C19 {
                                         break 'calls;
                                     }
                                     if distinct {
-                                        counts[pos_of[&x.to_bits()]] += 1;
+                                        let i = pos_of[&x.to_bits()];
+                                        counts[i] += 1;
+                                        if joint_on {
+                                            joint[j * n + i] += 1;
+                                        }
                                     }
                                 }
                             }
@@ -338,6 +388,42 @@ impl Prop for C19 {
                         if let Some(k) = counts.iter().position(|c| *c == 0) {
                             verdict = mk("bootstrap_uniform", "position_never_drawn",
                                 format!("position {} of {} never drawn in {} draws", k, n, total));
+                        }
+                    }
+                    // every output position draws every index equally often (small data): catches
+                    // resamples that are copies or fixed rearrangements of the data
+                    if verdict.is_none() && joint_on {
+                        let m = total / n as u64; // draws per output position
+                        if m >= 60 {
+                            st.inc("stat.joint_checked");
+                            let mu = m as f64 / n as f64;
+                            let l = (2.0 * (n * n) as f64 / 1e-12).ln();
+                            let t = (2.0 * mu * l).sqrt() + (2.0 / 3.0) * l;
+                            'jj: for j in 0..n {
+                                for i in 0..n {
+                                    if (joint[j * n + i] as f64 - mu).abs() > t {
+                                        verdict = mk("bootstrap_uniform", "position_index_dependence",
+                                            format!("output position {} received input position {} {} times in {} resamples; expected {:.1} +- {:.1}", j, i, joint[j * n + i], m, mu, t));
+                                        break 'jj;
+                                    }
+                                }
+                            }
+                        }
+                    }
+                    // chi-square over all positions once every position expects >= 2000 hits.
+                    // Threshold k + 2*sqrt(k*x) + 2x with x = 60: for an exact chi-square_k variable the
+                    // Laurent-Massart bound gives a tail < e^-60; with >= 2000 expected hits per cell the
+                    // multinomial statistic is far inside the range where that bound has orders of
+                    // magnitude to spare against the 1e-12 budget.
+                    if verdict.is_none() && total >= 2000 * n as u64 {
+                        st.inc("stat.chi_square_checked");
+                        let mu = total as f64 / n as f64;
+                        let chi2: f64 = counts.iter().map(|c| (*c as f64 - mu).powi(2) / mu).sum();
+                        let k = (n - 1) as f64;
+                        let thr = k + 2.0 * (k * 60.0).sqrt() + 120.0;
+                        if chi2 > thr {
+                            verdict = mk("bootstrap_uniform", "chi_square_exceeded",
+                                format!("chi-square of the position counts = {:.1} with {} degrees of freedom (threshold {:.1}; N = {}, n = {})", chi2, n - 1, thr, total, n));
                         }
                     }
                     // per-position frequency: Bernstein bound with the 1e-12 budget split over positions
@@ -546,10 +632,10 @@ impl Prop for C19 {
     fn expected_counters(_tier: Tier) -> Vec<String> {
         [
             "call.Bootstrap", "call.Jackknife", "call.Shuffle", "call.ShuffleTwo", "len.len1",
-            "len.len2-8", "len.len9+", "mode.distinct", "mode.repeated", "mode.special",
+            "len.len2-8", "len.len9+", "mode.distinct", "mode.repeated", "mode.special", "mode.special_distinct",
             "seeding.seed_clock", "seeding.seed_small", "seeding.seed_set", "fault.rng_zero",
             "fault.rng_max", "fault.rng_tiny", "fault.rng_half", "fault.rng_streak",
-            "stat.dkw_checked", "stat.coverage_checked", "stat.frequency_checked",
+            "stat.dkw_checked", "stat.coverage_checked", "stat.frequency_checked", "stat.joint_checked", "stat.chi_square_checked",
         ]
         .iter()
         .map(|s| s.to_string())
